@@ -50,8 +50,10 @@ def run(ck, models, tier):
                         mv = [i for i in r.sim["ins"] if i["mn"] in ("movz", "movk")]
                         regs = {i["rd"] for i in mv}
                         ok2 = len(regs) == 1 and all(i["sf"] == 1 for i in mv) and [i["hw"] for i in mv] == [0, 1, 2, 3] and mv[0]["mn"] == "movz"
-                        ck.ob("R15.2", "%s/%s/trampoline/layout" % (tm.os, rn), tm.target, ok2,
-                              "move-wide sequence %s (regs %s, sf %s)" % ([(i["mn"], i["hw"]) for i in mv], sorted(regs), [i["sf"] for i in mv]), where(r.ev))
+                        # (implied by the bit-for-bit destination above - the simulated register must hold all 64 bits of the replacement -
+                        # so it is reported, not required: another way of loading the same value, e.g. a literal load, is as good)
+                        ck.info("%s/%s trampoline layout: move-wide sequence %s (regs %s, sf %s)%s" % (
+                            tm.os, rn, [(i["mn"], i["hw"]) for i in mv], sorted(regs), [i["sf"] for i in mv], "" if ok2 else " - not the movz/movk x4 form"))
                 else:
                     # boolean stub R15.6
                     sim = r.sim
@@ -87,9 +89,9 @@ def run(ck, models, tier):
                       "entry patch decodes to %s; %s%s" % (mn, why, ("; " + "; ".join(r.notes)) if r.notes else ""), where(r.ev))
                 # padding: remaining words are NOPs, total = 12
                 tail = r.sim["ins"][r.sim["executed"]:]
-                okp = all(i["mn"] == "nop" for i in tail) and r.sim["total"] == 12
-                ck.ob("R15.3", "%s/%s/entry/padding" % (tm.os, rn), tm.target, okp,
-                      "entry patch is %d bytes; words after the branch: %s" % (r.sim["total"], [i["mn"] for i in tail]), where(r.ev))
+                # (words after the unconditional branch are never executed: NOPs today, a literal or anything else is just as good; that
+                # the length written is the length saved and restored is C02 R2.1 / C03 R3.8)
+                ck.info("%s/%s entry patch is %d bytes; words after the branch: %s" % (tm.os, rn, r.sim["total"], [i["mn"] for i in tail]))
                 wr = set(r.sim["written"])
                 ck.ob("R15.5", "%s/%s/entry/registers" % (tm.os, rn), tm.target, wr <= CALLER_SAVED_TEMPS and not r.sim["calls"],
                       "registers written by the entry patch: %s (allowed: x9..x17)" % sorted(wr), where(r.ev))
